@@ -21,7 +21,13 @@ RULE = ('case = (program, input, outcomes) with singleton reference outcome '
         'whose event orders differ AND the program has >=2 concurrently '
         'enabled tasks (fork / several start tasks / join), or an eviction '
         'run in which >=1 task was created and completed after an eviction; '
-        'distinct = hash(program, outcomes, input, choices of the variant)')
+        'distinct = hash(program, outcomes, input, choices of the variant). '
+        'Second domain: every workflow / workbook definition bundled in the '
+        'repository (yaml files, documentation code blocks, string constants '
+        'of the unit tests) that static screening places in the property\'s '
+        'domain, each run under 7+ schedule / eviction / id-salt variants '
+        'with emulated std actions; non-trivial = a variant with >=2 events '
+        'enabled at some step that took a non-FIFO choice or evicted caches')
 
 
 def variants(case, n_shuffles, D=None):
@@ -170,17 +176,52 @@ def shard_main(shard, nshards, seed, tier, opts):
         shrink_budget=opts.get('shrink_budget', 30), stats=st)
     if fail:
         fail['scheduler'] = sched_type
-    out = {'stats': st.to_dict(), 'failures': [fail] if fail else []}
+    failures = [fail] if fail else []
+    if not fail and opts.get('bundled', True):
+        failures.extend(bundled_phase(shard, nshards, seed, tier, st,
+                                      sched_type))
+    out = {'stats': st.to_dict(), 'failures': failures}
     if shard == 0:
         from mv.props import known
         out['known_hits'] = known.run_known(PROP)
     return out
 
 
+def bundled_phase(shard, nshards, seed, tier, st, sched_type):
+    """Second domain of the property: repository-bundled definitions."""
+    from mv.props import bundledrun as R
+    keep, hist = R.corpus('c02')
+    if shard == 0:
+        st.counters.update(hist)
+        st.counters['bundled_corpus_in_domain'] += len(keep)
+    variants = list(R.VARIANTS)
+    if tier == 'thorough':
+        for i in range(8):
+            variants.append(('shuffle-t%d' % i,
+                             {'policy': 'shuffle', 'seed': seed * 100 + i},
+                             i % 2 == 1, 20 + i))
+    else:
+        keep = [e for e in keep if (int(e['h'], 16) + seed) % 2 == 0]
+        variants.insert(5, ('shuffle-s', {'policy': 'shuffle',
+                                          'seed': seed * 7 + 1}, False, 9))
+    for i, e in enumerate(keep):
+        if i % nshards != shard:
+            continue
+        fails = R.check_entry(e, st, variants=variants, discipline=False)
+        if fails:
+            for f in fails:
+                f['scheduler'] = sched_type
+            return fails[:1]
+    return []
+
+
 def replay(path):
     from mv import sim
     f = common.replay_case(path)
     sim.boot(f.get('scheduler', 'default'))
+    if 'bundled' in f['case']:
+        from mv.props import bundledrun as R
+        return R.replay_case(f['case'])
     return check_case(f['case'], None, 3, 200)
 
 
